@@ -2,7 +2,7 @@
    Property theorems only; each is closed by [exact] of a lemma proved in proofs/. *)
 From SQ Require Import lib.Base gen.Gen_C12.
 From SQ Require model.DataSender model.SendJudge model.StreamId model.CloseSender.
-From SQ Require proofs.SendProofs proofs.StreamIdProofs proofs.CloseSenderProofs.
+From SQ Require proofs.SendProofs proofs.SendProofs12 proofs.StreamIdProofs proofs.CloseSenderProofs.
 Import DataSender SendJudge.
 Local Open Scope N_scope.
 
@@ -39,31 +39,33 @@ Theorem C12_quiet_after_reset : forall salt s c p r s' c' p',
   /\ SendProofs.reset_shape s'.
 Proof. exact SendProofs.quiet_after_reset. Qed.
 
-(* the judgement of the stream component (slices, nothing beyond the final size, final size stable and
-   not below what was sent, nothing but RESET_STREAM after RESET_STREAM) accepts the model whenever an
-   invariant linking model and monitor is preserved by the nine operations: the plumbing half of
-   judge_run (parsing of the rendered output, monitor walk); see the report for what is not closed *)
-Theorem C12_ss_judge_run_partial : forall salt n (I : conn -> mon -> Prop),
-  0 < n ->
-  (forall k m, I k m -> length (k_streams k) = N.to_nat n) ->
-  (forall k m i len res s', I k m -> i < n -> ss_push (get_stream k i) len = (res, s') ->
-     (-1 <= res <= Nz len)%Z /\
-     I (with_stream k i (fun _ => s'))
-       (with_ms m i (fun s => mk_ms (m_w s + zN res) (m_hi s) (m_fin s) (m_rst s) (m_lim s)))) ->
-  (forall k m i res s', I k m -> i < n -> ss_finish (get_stream k i) = (res, s') -> I (with_stream k i (fun _ => s')) m) ->
-  (forall k m i code app, I k m -> i < n -> I (with_stream k i (fun s => ss_reset s code app)) m) ->
-  (forall k m t cap c md k' fs, I k m -> t < n + 1 -> c < 4 -> cap < 65536 ->
-     conn_transmit salt k t cap c md = (k', fs) ->
-     exists m', chk_frames (chk12 salt n) n m fs = Some m' /\ I k' m') ->
-  (forall k m lo hi, I k m -> I (conn_ack k lo hi) m) ->
-  (forall k m lo hi, I k m -> I (conn_loss k lo hi) m) ->
-  (forall k m i v, I k m -> i < n ->
-     I (with_stream k i (fun s => ss_max_stream_data s v))
-       (with_ms m i (fun s => mk_ms (m_w s) (m_hi s) (m_fin s) (m_rst s) (N.max (m_lim s) v)))) ->
-  (forall k m v, I k m -> I (conn_max_data k v) (mk_mon (m_streams m) (N.max (m_limd m) v))) ->
-  forall fuel k m ops rest, I k m ->
-  walk (chk12 salt n) fuel n m ops (run_ops fuel salt n k ops ++ rest) = true.
-Proof. exact (SendProofs.walk_run_ops chk12). Qed.
+(* all histories: for every case (any number of streams, any sequence of writes, finish, reset,
+   STOP_SENDING, packets of any capacity / constraint / mode, acks, losses, MAX_* in any order) the
+   extracted stream judgement accepts the run of the model.  The judgement walks the frames in emission
+   order with the monitor state (bytes written, highest end offset sent, announced final size,
+   RESET_STREAM sent) recomputed from the operations alone, and applies chk12 to every frame *)
+Theorem C12_ss_judge_run : forall case, judge12 case (DataSender.run case) = true.
+Proof. exact SendProofs12.judge12_run. Qed.
+
+(* what acceptance of a frame means (with C12_ss_judge_run: for every frame of every history):
+   frames_are_slices, quiet_after_reset, nothing_beyond_final, final_size_stable *)
+Theorem C12_stream_frame_meaning : forall salt n m f, fr_kind f = 1 -> chk12 salt n m f = true ->
+  exists i, frame_stream n f = Some i /\
+    let s := get_ms m i in let e := fr_val f + N.of_nat (length (fr_data f)) in
+    m_rst s = false /\ e <= m_w s /\
+    fr_data f = slice salt i (fr_val f) (N.of_nat (length (fr_data f))) /\
+    (forall z, m_fin s = Some z -> e <= z) /\
+    (fr_fin f = true -> m_hi s <= e /\ forall z, m_fin s = Some z -> z = e).
+Proof. exact SendProofs12.chk12_stream_meaning. Qed.
+
+Theorem C12_final_size_stable : forall salt n m f, fr_kind f = 2 -> chk12 salt n m f = true ->
+  exists i, frame_stream n f = Some i /\
+    m_hi (get_ms m i) <= fr_val f /\ forall z, m_fin (get_ms m i) = Some z -> z = fr_val f.
+Proof. exact SendProofs12.chk12_reset_meaning. Qed.
+
+Theorem C12_no_blocked_after_reset : forall salt n m f, fr_kind f = 3 -> chk12 salt n m f = true ->
+  exists i, frame_stream n f = Some i /\ m_rst (get_ms m i) = false.
+Proof. exact SendProofs12.chk12_blocked_meaning. Qed.
 
 (* ids_increase_no_reuse: every id handed out has the low bits of its type and is strictly above the
    previous id of that type (ids are initial + 4 * number opened before) *)
@@ -99,7 +101,10 @@ Print Assumptions C12_frames_are_slices.
 Print Assumptions C12_retransmission_identical.
 Print Assumptions C12_reset_enters_quiet_shape.
 Print Assumptions C12_quiet_after_reset.
-Print Assumptions C12_ss_judge_run_partial.
+Print Assumptions C12_ss_judge_run.
+Print Assumptions C12_stream_frame_meaning.
+Print Assumptions C12_final_size_stable.
+Print Assumptions C12_no_blocked_after_reset.
 Print Assumptions C12_ids_increase_no_reuse.
 Print Assumptions C12_st_judge_run.
 Print Assumptions C12_cs_judge_run.
